@@ -96,6 +96,6 @@ theorem C03_result_map :
 
 /-- no rescaling precedes the return: only the symmetrisation of the 's' blocks -/
 theorem C03_epilogue_map :
-    (coneqp.returns[1]?).map (·.2) = some [("symm", "s", ""), ("symm", "z", "")] := by decide
+    (coneqp.returns[1]?).map (·.2) = some [("symm", "s", "order m over dims['s'] from dims['l'] + sum(dims['q']) step m ** 2"), ("symm", "z", "order m over dims['s'] from dims['l'] + sum(dims['q']) step m ** 2")] := by decide
 
 end CvxVerif.C03
